@@ -1,12 +1,342 @@
 import QclibModel.Proofs.RotLaws
 import QclibModel.Spec.Pqm
+import Mathlib.Algebra.Group.Basic
+import Mathlib.Tactic.Ring
+/-
+  C17: the pqm retrieval circuit equals its closed form `pqmIdeal` on every state.
+
+  Structure: (1) `sem` of appended lists; (2) the XOR layer is the relabelling `pqmXs`
+  (fold of the per-index conditional flips `pqmStep`), whose reverse is its inverse;
+  (3) the `p` / `cp` layers are diagonal, multiplying by `c b ^ (number of set memory wires)`;
+  (4) after the un-XOR the count of set wires is `pqmDist`; (5) the two Hadamards on `aux`.
+-/
 namespace Qclib
 open RotSem
+
+section Helpers
+variable {Θ R : Type} [CommRing R] [RotSem Θ R]
+
+/-! ### Labels -/
+
+theorem setBit_eq (b : Bits) (q : Nat) (v : Bool) : setBit b q v q = v := by simp [setBit]
+
+theorem setBit_ne (b : Bits) {q i : Nat} (v : Bool) (h : i ≠ q) : setBit b q v i = b i := by
+  simp [setBit, h]
+
+theorem setBit_setBit (b : Bits) (q : Nat) (v v' : Bool) :
+    setBit (setBit b q v) q v' = setBit b q v' := by
+  funext i; by_cases h : i = q <;> simp [setBit, h]
+
+theorem setBit_self (b : Bits) (q : Nat) : setBit b q (b q) = b := by
+  funext i; by_cases h : i = q <;> simp [setBit, h]
+
+theorem setBit_not (b : Bits) (q : Nat) : setBit b q (!b q) = flipBit b q := by
+  funext i; by_cases h : i = q <;> simp [setBit, flipBit, h]
+
+theorem flipBit_eq (b : Bits) (q : Nat) : flipBit b q q = !b q := by simp [flipBit]
+
+theorem flipBit_ne (b : Bits) {q i : Nat} (h : i ≠ q) : flipBit b q i = b i := by
+  simp [flipBit, h]
+
+theorem flipBit_flipBit (b : Bits) (q : Nat) : flipBit (flipBit b q) q = b := by
+  funext i; by_cases h : i = q <;> simp [flipBit, h]
+
+/-! ### `sem` on lists -/
+
+theorem sem_append (c1 c2 : Circ Θ) (ψ : State R) :
+    sem (c1 ++ c2) ψ = sem c2 (sem c1 ψ) := by
+  simp [sem, List.foldl_append]
+
+theorem sem_nil (ψ : State R) : sem ([] : Circ Θ) ψ = ψ := rfl
+
+theorem sem_single (g : G Θ) (ψ : State R) : sem [g] ψ = denote g ψ := rfl
+
+/-! ### Single gates -/
+
+theorem denote_x (q : Nat) (ψ : State R) (b : Bits) :
+    denote (G.x q : G Θ) ψ b = ψ (flipBit b q) := by
+  rw [← setBit_not]
+  simp only [denote, applyMcu, ctrlOk, List.all_nil, Mat2.X]
+  cases h : b q <;> simp
+
+theorem denote_cx (c t : Nat) (ψ : State R) (b : Bits) :
+    denote (G.cx c t : G Θ) ψ b = if b c then ψ (flipBit b t) else ψ b := by
+  rw [← setBit_not]
+  simp only [denote, applyMcu, ctrlOk, Mat2.X]
+  cases hc : b c <;> cases h : b t <;> simp [hc]
+
+theorem denote_p (θ : Θ) (q : Nat) (ψ : State R) (b : Bits) :
+    denote (G.p θ q) ψ b = (if b q then ex θ * ex θ else 1) * ψ b := by
+  simp only [denote, applyMcu, ctrlOk, List.all_nil, matP]
+  cases h : b q
+  · have : setBit b q false = b := by rw [← h, setBit_self]
+    simp [this]
+  · have : setBit b q true = b := by rw [← h, setBit_self]
+    simp [this]
+
+theorem denote_cp (θ : Θ) (c t : Nat) (ψ : State R) (b : Bits) :
+    denote (G.cp θ c t) ψ b
+      = (if b t then (if b c then ex θ * ex θ else 1) else 1) * ψ b := by
+  simp only [denote, applyMcu, ctrlOk, matP]
+  cases hc : b c
+  · simp [hc]
+  · cases h : b t
+    · have : setBit b t false = b := by rw [← h, setBit_self]
+      simp [hc, this]
+    · have : setBit b t true = b := by rw [← h, setBit_self]
+      simp [hc, this]
+
+theorem denote_h (q : Nat) (ψ : State R) (b : Bits) :
+    denote (G.h q : G Θ) ψ b
+      = if b q then rh Θ * ψ (setBit b q false) + -(rh Θ) * ψ (setBit b q true)
+        else rh Θ * ψ (setBit b q false) + rh Θ * ψ (setBit b q true) := by
+  simp [denote, applyMcu, ctrlOk, matH]
+
+/-! ### Diagonal layers -/
+
+/-- Number of memory wires `mem k`, `k < n`, that are set in `b`. -/
+def pqmCnt (mem : Nat → Nat) (n : Nat) (b : Bits) : Nat :=
+  ((List.range n).filter (fun k => b (mem k))).length
+
+theorem pqmCnt_succ (mem : Nat → Nat) (n : Nat) (b : Bits) :
+    pqmCnt mem (n + 1) b = pqmCnt mem n b + (if b (mem n) then 1 else 0) := by
+  unfold pqmCnt
+  rw [List.range_succ, List.filter_append, List.length_append]
+  cases h : b (mem n) <;> simp [h]
+
+theorem sem_diagLayer (mem : Nat → Nat) (g : Nat → G Θ) (c : Bits → R)
+    (hg : ∀ k (ψ : State R) b, denote (g k) ψ b = (if b (mem k) then c b else 1) * ψ b)
+    (n : Nat) (ψ : State R) (b : Bits) :
+    sem ((List.range n).map g) ψ b = c b ^ pqmCnt mem n b * ψ b := by
+  induction n with
+  | zero => simp [sem_nil, pqmCnt]
+  | succ n ih =>
+    rw [List.range_succ, List.map_append, sem_append, List.map_singleton, sem_single, hg, ih,
+      pqmCnt_succ]
+    cases h : b (mem n) <;> simp [pow_succ]; ring
+
+/-! ### The XOR layer as a relabelling -/
+
+variable (classical : Bool) (pattern : Nat → Bool) (mem pat : Nat → Nat)
+
+/-- Pattern bit `k` as read from the label. -/
+def pqmPb (k : Nat) (b : Bits) : Bool := if classical then pattern k else b (pat k)
+
+/-- Conditional flip of memory wire `k`. -/
+def pqmStep (k : Nat) (b : Bits) : Bits :=
+  if pqmPb classical pattern pat k b then flipBit b (mem k) else b
+
+/-- Gates emitted by the XOR layer for index `k`. -/
+def pqmXorGate (k : Nat) : Circ Θ :=
+  if classical then (if pattern k then [G.x (mem k)] else [])
+  else [G.cx (pat k) (mem k)]
+
+/-- Relabelling denoted by the XOR gates for the indices in `l` (in list order). -/
+def pqmXs (l : List Nat) (b : Bits) : Bits := l.foldr (pqmStep classical pattern mem pat) b
+
+theorem pqmXs_nil (b : Bits) : pqmXs classical pattern mem pat [] b = b := rfl
+
+theorem pqmXs_cons (k : Nat) (l : List Nat) (b : Bits) :
+    pqmXs classical pattern mem pat (k :: l) b
+      = pqmStep classical pattern mem pat k (pqmXs classical pattern mem pat l b) := rfl
+
+theorem pqmXs_append (l1 l2 : List Nat) (b : Bits) :
+    pqmXs classical pattern mem pat (l1 ++ l2) b
+      = pqmXs classical pattern mem pat l1 (pqmXs classical pattern mem pat l2 b) := by
+  simp [pqmXs, List.foldr_append]
+
+theorem sem_xorGate (k : Nat) (ψ : State R) (b : Bits) :
+    sem (pqmXorGate (Θ := Θ) classical pattern mem pat k) ψ b
+      = ψ (pqmStep classical pattern mem pat k b) := by
+  unfold pqmXorGate pqmStep pqmPb
+  cases classical
+  · simp only [Bool.false_eq_true, if_false, sem_single, denote_cx]
+    cases b (pat k) <;> simp
+  · cases pattern k <;> simp [sem_single, sem_nil, denote_x]
+
+theorem sem_xorList (l : List Nat) (ψ : State R) :
+    sem (l.flatMap (pqmXorGate (Θ := Θ) classical pattern mem pat)) ψ
+      = fun b => ψ (pqmXs classical pattern mem pat l b) := by
+  induction l generalizing ψ with
+  | nil => rfl
+  | cons k l ih =>
+    rw [List.flatMap_cons, sem_append, ih]
+    funext b
+    rw [sem_xorGate, pqmXs_cons]
+
+theorem pqmXor_eq (n : Nat) :
+    (pqmXor n classical pattern mem pat : Circ Θ)
+      = (List.range n).flatMap (pqmXorGate classical pattern mem pat) := rfl
+
+theorem xorGate_reverse (k : Nat) :
+    (pqmXorGate (Θ := Θ) classical pattern mem pat k).reverse
+      = pqmXorGate classical pattern mem pat k := by
+  unfold pqmXorGate
+  cases classical <;> cases pattern k <;> simp
+
+theorem xorList_reverse (l : List Nat) :
+    (l.flatMap (pqmXorGate (Θ := Θ) classical pattern mem pat)).reverse
+      = l.reverse.flatMap (pqmXorGate classical pattern mem pat) := by
+  induction l with
+  | nil => rfl
+  | cons k l ih =>
+    rw [List.flatMap_cons, List.reverse_append, ih, List.reverse_cons, List.flatMap_append,
+      xorGate_reverse]
+    simp
+
+/-! ### Properties of the relabelling under the wire hypotheses -/
+
+variable {classical pattern mem pat} {n aux : Nat} (hw : PqmWires n mem pat aux)
+include hw
+
+theorem pqmStep_aux {k : Nat} (hk : k < n) (b : Bits) :
+    pqmStep classical pattern mem pat k b aux = b aux := by
+  unfold pqmStep
+  split
+  · exact flipBit_ne b (Ne.symm (hw.mem_aux k hk))
+  · rfl
+
+theorem pqmStep_pat {k j : Nat} (hk : k < n) (hj : j < n) (b : Bits) :
+    pqmStep classical pattern mem pat k b (pat j) = b (pat j) := by
+  unfold pqmStep
+  split
+  · exact flipBit_ne b (Ne.symm (hw.mem_pat k j hk hj))
+  · rfl
+
+theorem pqmPb_step {k j : Nat} (hk : k < n) (hj : j < n) (b : Bits) :
+    pqmPb classical pattern pat j (pqmStep classical pattern mem pat k b)
+      = pqmPb classical pattern pat j b := by
+  unfold pqmPb
+  rw [pqmStep_pat hw hk hj]
+
+theorem pqmStep_step {k : Nat} (hk : k < n) (b : Bits) :
+    pqmStep classical pattern mem pat k (pqmStep classical pattern mem pat k b) = b := by
+  have h := pqmPb_step (classical := classical) (pattern := pattern) hw hk hk b
+  unfold pqmStep at h ⊢
+  by_cases hp : pqmPb classical pattern pat k b = true
+  · rw [if_pos hp] at h ⊢
+    rw [if_pos (h.trans hp), flipBit_flipBit]
+  · rw [if_neg hp, if_neg hp]
+
+theorem pqmXs_aux (l : List Nat) (hl : ∀ k ∈ l, k < n) (b : Bits) :
+    pqmXs classical pattern mem pat l b aux = b aux := by
+  induction l with
+  | nil => rfl
+  | cons k l ih =>
+    rw [pqmXs_cons, pqmStep_aux hw (hl k (List.mem_cons_self ..)),
+      ih (fun j hj => hl j (List.mem_cons_of_mem _ hj))]
+
+theorem pqmPb_xs (l : List Nat) (hl : ∀ k ∈ l, k < n) {j : Nat} (hj : j < n) (b : Bits) :
+    pqmPb classical pattern pat j (pqmXs classical pattern mem pat l b)
+      = pqmPb classical pattern pat j b := by
+  induction l with
+  | nil => rfl
+  | cons k l ih =>
+    rw [pqmXs_cons, pqmPb_step hw (hl k (List.mem_cons_self ..)) hj,
+      ih (fun j hj => hl j (List.mem_cons_of_mem _ hj))]
+
+theorem pqmXs_mem (l : List Nat) (hl : ∀ k ∈ l, k < n) (hnd : l.Nodup) {k : Nat} (hk : k < n)
+    (b : Bits) :
+    pqmXs classical pattern mem pat l b (mem k)
+      = if k ∈ l then (b (mem k) != pqmPb classical pattern pat k b) else b (mem k) := by
+  induction l with
+  | nil => simp [pqmXs_nil]
+  | cons j l ih =>
+    have hj : j < n := hl j (List.mem_cons_self ..)
+    have hl' : ∀ k ∈ l, k < n := fun i hi => hl i (List.mem_cons_of_mem _ hi)
+    have hnd' := List.nodup_cons.mp hnd
+    have ih' := ih hl' hnd'.2
+    rw [pqmXs_cons]
+    unfold pqmStep
+    rw [pqmPb_xs hw l hl' hj]
+    by_cases hkj : k = j
+    · subst hkj
+      have hnot : k ∉ l := hnd'.1
+      rw [if_neg hnot] at ih'
+      rw [if_pos (List.mem_cons_self ..)]
+      cases hp : pqmPb classical pattern pat k b
+      · simp [ih']
+      · simp [flipBit_eq, ih']
+    · have hne : mem k ≠ mem j := fun h => hkj (hw.mem_inj k j hk hj h)
+      have hmem : (k ∈ j :: l) ↔ k ∈ l := by simp [hkj]
+      have : (if pqmPb classical pattern pat j b = true
+          then flipBit (pqmXs classical pattern mem pat l b) (mem j)
+          else pqmXs classical pattern mem pat l b) (mem k)
+          = pqmXs classical pattern mem pat l b (mem k) := by
+        split
+        · exact flipBit_ne _ hne
+        · rfl
+      rw [this, ih']
+      simp only [hmem]
+
+theorem pqmXs_invol (l : List Nat) (hl : ∀ k ∈ l, k < n) (b : Bits) :
+    pqmXs classical pattern mem pat l (pqmXs classical pattern mem pat l.reverse b) = b := by
+  induction l generalizing b with
+  | nil => rfl
+  | cons k l ih =>
+    rw [List.reverse_cons, pqmXs_append, pqmXs_cons,
+      ih (fun j hj => hl j (List.mem_cons_of_mem _ hj)), pqmXs_cons, pqmXs_nil,
+      pqmStep_step hw (hl k (List.mem_cons_self ..))]
+
+theorem pqmCnt_xs (b : Bits) :
+    pqmCnt mem n (pqmXs classical pattern mem pat (List.range n).reverse b)
+      = pqmDist n classical pattern mem pat b := by
+  unfold pqmCnt pqmDist
+  congr 1
+  apply List.filter_congr
+  intro k hk
+  have hk' : k < n := List.mem_range.mp hk
+  rw [pqmXs_mem hw _ (by intro j hj; exact List.mem_range.mp (List.mem_reverse.mp hj))
+    (by rw [List.Nodup, List.pairwise_reverse]
+        exact (List.nodup_range (n := n)).imp (fun h => Ne.symm h)) hk']
+  rw [if_pos (List.mem_reverse.mpr hk)]
+  rfl
+
+theorem pqmDist_setBit_aux (v : Bool) (b : Bits) :
+    pqmDist n classical pattern mem pat (setBit b aux v)
+      = pqmDist n classical pattern mem pat b := by
+  unfold pqmDist
+  congr 1
+  apply List.filter_congr
+  intro k hk
+  have hk' : k < n := List.mem_range.mp hk
+  rw [setBit_ne b v (hw.mem_aux k hk'), setBit_ne b v (hw.pat_aux k hk')]
+
+/-- The circuit between the two Hadamards is diagonal. -/
+theorem pqm_mid (θm θc : Θ) (φ : State R) (b : Bits) :
+    sem (pqmXor n classical pattern mem pat : Circ Θ).reverse
+      (sem ((List.range n).map (fun k => G.cp θc aux (mem k)))
+        (sem ((List.range n).map (fun k => G.p θm (mem k)))
+          (sem (pqmXor n classical pattern mem pat : Circ Θ) φ))) b
+      = (if b aux then ex θc * ex θc else 1) ^ pqmDist n classical pattern mem pat b
+        * ((ex θm * ex θm) ^ pqmDist n classical pattern mem pat b * φ b) := by
+  have hrange : ∀ k ∈ (List.range n).reverse, k < n := fun j hj =>
+    List.mem_range.mp (List.mem_reverse.mp hj)
+  have hrange' : ∀ k ∈ List.range n, k < n := fun j hj => List.mem_range.mp hj
+  rw [pqmXor_eq, xorList_reverse, sem_xorList, sem_xorList]
+  simp only []
+  rw [sem_diagLayer mem (fun k => G.cp θc aux (mem k)) (fun b => if b aux then ex θc * ex θc else 1)
+      (fun k ψ b => denote_cp θc aux (mem k) ψ b),
+    sem_diagLayer mem (fun k => G.p θm (mem k)) (fun _ => ex θm * ex θm)
+      (fun k ψ b => denote_p θm (mem k) ψ b)]
+  rw [pqmXs_invol hw _ hrange', pqmCnt_xs hw, pqmXs_aux hw _ hrange]
+
+end Helpers
+
 variable {Θ R : Type} [AddCommGroup Θ] [CommRing R] [RotSem Θ R] [RotLaws Θ R]
 
+set_option linter.unusedSectionVars false in
 theorem pqm_correct (n : Nat) (classical : Bool) (pattern : Nat → Bool) (mem pat : Nat → Nat)
     (aux : Nat) (hw : PqmWires n mem pat aux) (θm θc : Θ) (ψ : State R) :
     sem (pqm n classical pattern mem pat aux θm θc) ψ
       = pqmIdeal n classical pattern mem pat aux θm θc ψ := by
-  sorry
+  funext b
+  unfold pqm
+  simp only [sem_append, sem_single]
+  rw [denote_h, pqm_mid hw, pqm_mid hw]
+  simp only [denote_h, setBit_eq, setBit_setBit, pqmDist_setBit_aux hw]
+  unfold pqmIdeal
+  cases b aux <;> simp <;> ring
+
+#print axioms pqm_correct
 end Qclib
